@@ -436,16 +436,7 @@ def purity_unify(F, rep):
             t, e = pp(tc.n_tail(i["t"])), pp(tc.n_tail(i["e"]))
             ok = t.endswith("Purity::Pure") and e.endswith("Purity::Impure")
     rep.ob("PURITY-UNIFY", "type_from_function|literal-purity", ok, "a `pu` literal is Pure, a `fn` literal Impure", ftf["sp"])
-    firt = F.fn(TC + "inner_resolve_type")
-    txt = ""
-    for arm, alt in tc.arm_of(F, firt, NR + "Type", "Fn"):
-        for st in nodes(arm["body"], "Block"):
-            for s in st["stmts"]:
-                if s.get("k") == "Let" and any(b["name"] == "purity" for b in pat_bindings(s["pat"])):
-                    txt = pp(s["init"])
-    ok = "is_pure" in txt and "Purity::Pure" in txt and "Purity::Undefined" in txt and "Impure" not in txt
-    rep.ob("PURITY-UNIFY", "inner_resolve_type|annotation-purity", ok,
-           "a `pu` annotation is Pure, a `fn` annotation Undefined (`%s`)" % txt[:80], firt["sp"])
+    annotation_purity(F, rep)
     fic = F.fn(TC + "inner_copy")
     ok = False
     for m in matches_on(fn_body(fic), TY):
@@ -457,3 +448,23 @@ def purity_unify(F, rep):
                     a3 = peel(b["args"][2])
                     ok = a3.get("k") == "Path" and a3.get("hid") == binds[2]["hid"]
     rep.ob("PURITY-UNIFY", "inner_copy|purity-kept", ok, "instantiating (copying) a function type keeps its purity", fic["sp"])
+
+
+def annotation_purity(F, rep, rule="PURITY-UNIFY"):
+    """a written `fn ..` type resolves to the wildcard purity (Undefined, which sub_unify lets meet anything); only a
+    written `pu ..` type demands purity.  Were `fn` annotations Impure, a correct annotation on a value holding a pure
+    function would be rejected although the erased program is accepted (C08), and pure values could not flow into
+    `fn`-typed parameters."""
+    firt = F.fn(TC + "inner_resolve_type")
+    rep.analysed(firt)
+    fl = Flow(firt, fn_body(firt))
+    found = None
+    for arm, alt in tc.arm_of(F, firt, NR + "Type", "Fn"):
+        for c in nodes(arm["body"], "Call"):
+            if (callee(c) or "").endswith("ty::Type::Function") and len(c["args"]) == 3:
+                src = fl.trace(c["args"][2])
+                found = sorted({last(norm_path(x["path"])) for x in nodes(src, "Path")
+                                if "::Purity::" in norm_path(x.get("path") or "")})
+    ok = found == ["Pure", "Undefined"]
+    rep.ob(rule, "inner_resolve_type|annotation-purity", ok,
+           "the purity of a written function type is chosen among %s (expected: Pure for `pu`, Undefined for `fn`)" % found, firt["sp"])
